@@ -28,6 +28,8 @@ type c13Case struct {
 	// Noise: the request also carries the headers proxies in front of Envoy add, all contradicting the request's own
 	// scheme / host / path attributes (which are what "first requested" means)
 	Noise bool `json:"noise,omitempty"`
+	// Debug: evaluated with log_level all:debug
+	Debug bool `json:"debug_logging,omitempty"`
 }
 
 // c13Noise builds headers that contradict the attributes of a request with the given scheme.
@@ -141,6 +143,9 @@ func sortedPairs(p [][2]string) []string {
 }
 
 func c13Check(c c13Case) (sig, msg string) {
+	if c.Debug {
+		world.EnableDebugLogging()
+	}
 	spec := world.Spec{Store: c.Store, ClientID: c.ClientID, Scopes: c.Scopes, CallbackURI: c.Callback, AuthzURI: c.Authz}
 	w := world.New(spec)
 	defer w.Close()
@@ -261,7 +266,7 @@ func c13Check(c c13Case) (sig, msg string) {
 func s256ref(v string) string { return world.S256(v) }
 
 func c13Run(run *ev.Run) {
-	run.Rule = "full product client id x scopes x callback URI x authorization URI (with/without own query, reserved and non-ASCII characters) x requested scheme/host/target x store; one real login redirect each (and, for the default callback, the completed login) judged by a hand-written RFC 3986 splitter / form decoder; class = (endpoint has own query, client id, target)"
+	run.Rule = "full product client id x scopes x callback URI x authorization URI (with/without own query, reserved and non-ASCII characters) x requested scheme/host/target x store; one real login redirect each (and, for the default callback, the completed login) judged by a hand-written RFC 3986 splitter / form decoder; every case of the default callback once more with log_level all:debug; class = (endpoint has own query, client id, target)"
 	run.Assumptions = []string{"callback matching for exotic callback URIs is not judged here (only the redirect_uri parameter is)", "'+' in a query component decodes to a space (form encoding), as an OpenID provider reads it"}
 	clientIDs := []string{"cid", "c id", "a&b=c", "a+b", "%41", "ü"}
 	scopes := [][]string{{"openid"}, {"openid", "e mail"}, {"a&b", "openid"}}
@@ -325,6 +330,36 @@ func c13Run(run *ev.Run) {
 	if int(evals) != len(cases) {
 		run.Cap(fmt.Sprintf("%d of %d cases", evals, len(cases)))
 	}
+	defer func() {
+		// last, because it cannot be undone: every case of the default callback once more with log_level all:debug (set
+		// up as cmd/main.go does) - what runs only at debug level must not change a redirect
+		world.EnableDebugLogging()
+		var dbg int64
+		var dcases []c13Case
+		for _, c := range cases {
+			if c.Callback == world.CallbackURI && c.Store == "memory" {
+				c.Debug = true
+				dcases = append(dcases, c)
+			}
+		}
+		par.For(len(dcases), run.Expired, func(i int) {
+			c := dcases[i]
+			sig, msg := c13Check(c)
+			atomic.AddInt64(&dbg, 1)
+			if sig != "" {
+				run.Violation("C13 "+sig+" log=debug", msg, c)
+			}
+			run.Class(fmt.Sprintf("log=debug|ownquery=%v|target=%s", strings.Contains(c.Authz, "?"), c.Target))
+		})
+		if int(dbg) != len(dcases) {
+			run.Cap(fmt.Sprintf("debug-logging pass: %d of %d cases", dbg, len(dcases)))
+		}
+		run.Extra["cases_with_debug_logging"] = dbg
+		run.Evals += dbg
+		run.States += dbg
+		run.Transitions += dbg
+		run.Traces += dbg
+	}()
 	// server level: two filters whose discovered providers coincide in all but a port / a discovery selector - the
 	// login Location of a filter is ITS provider's authorization endpoint, its own query retained
 	pairs := srvRunPairs(run, func(o srvPairObs, replay any) {
